@@ -20,3 +20,40 @@ let register_c12 reg =
       show_bool (dist_ok (dkind_of (zv k)) (zv iv) (zlist rates) (natv calls) (zv iv') (zlist outs) (zv evals))
     | _ -> failwith "dist_ok: arity")
 let () = section register_c12
+
+(* ---- C10 *)
+let zpair = function L [a; b] -> (zv a, zv b) | _ -> failwith "pair"
+let zopt = function L [] -> None | L [a] -> Some (zv a) | _ -> failwith "opt"
+
+let register_c10 reg =
+  reg "staged" (function
+    | [stages; start; ts] ->
+      let (outs, total) = staged_run (List.map zpair (lv stages)) (zopt start) (zlist ts) in
+      "ok [" ^ show_zlist outs ^ "," ^ z_to_string total ^ "]"
+    | _ -> failwith "staged: arity");
+  reg "staged_ok" (function
+    | [stages; start; ts; L [outs; total]] ->
+      show_bool (staged_ok (List.map zpair (lv stages)) (zopt start) (zlist ts) (zlist outs) (zv total))
+    | _ -> failwith "staged_ok: arity");
+  reg "ramp" (function
+    | [from; to_; dur; ts] -> "ok " ^ show_zlist (ramp_run_f64 (zv from) (zv to_) (zv dur) (zlist ts))
+    | _ -> failwith "ramp: arity");
+  reg "ramp_ok" (function
+    | [from; to_; dur; ts; outs] -> show_bool (ramp_ok (zv from) (zv to_) (zv dur) (zlist ts) (zlist outs))
+    | _ -> failwith "ramp_ok: arity")
+let () = section register_c10
+
+(* ---- f64 primitives *)
+let fb x = f_of_bits (zv x)
+let tb f = z_to_string (f_to_bits f)
+let register_f64 reg =
+  let bin name f = reg name (function [a; b] -> tb (f (fb a) (fb b)) | _ -> failwith name) in
+  let un name f = reg name (function [a] -> tb (f (fb a)) | _ -> failwith name) in
+  bin "f64_add" f_add; bin "f64_sub" f_sub; bin "f64_mul" f_mul; bin "f64_div" f_div;
+  bin "f64_max" f_max;
+  un "f64_floor" f_floor; un "f64_ceil" f_ceil; un "f64_round" f_round; un "f64_trunc" f_trunc;
+  reg "f64_toint" (function [a] -> z_to_string (f_to_int (fb a)) | _ -> failwith "toint");
+  reg "f64_ofint" (function [a] -> tb (f_of_Z (zv a)) | _ -> failwith "ofint");
+  reg "f64_lt" (function [a; b] -> show_bool (f_lt (fb a) (fb b)) | _ -> failwith "lt");
+  reg "f64_le" (function [a; b] -> show_bool (f_le (fb a) (fb b)) | _ -> failwith "le")
+let () = section register_f64
